@@ -33,13 +33,13 @@ func init() { props["C15"] = runC15 }
 // ---- literal trees ------------------------------------------------------------------------------------------
 
 type c15Lit struct {
-	Kind    string         `json:"k"`           // null bool int float enum str block list obj var
-	B       bool           `json:"b,omitempty"` // bool value / negative sign
-	Raw     string         `json:"raw,omitempty"` // digits of a number, enum name, variable name
-	Content string         `json:"c,omitempty"`   // hex of the raw bytes between the quotes (str) / between the triple quotes (block)
-	Items   []*c15Lit      `json:"items,omitempty"`
-	Fields  []c15Field     `json:"fields,omitempty"`
-	val     any            // the GraphQL value this literal denotes (strings: Go string of the decoded bytes)
+	Kind    string     `json:"k"`             // null bool int float enum str block list obj var
+	B       bool       `json:"b,omitempty"`   // bool value / negative sign
+	Raw     string     `json:"raw,omitempty"` // digits of a number, enum name, variable name
+	Content string     `json:"c,omitempty"`   // hex of the raw bytes between the quotes (str) / between the triple quotes (block)
+	Items   []*c15Lit  `json:"items,omitempty"`
+	Fields  []c15Field `json:"fields,omitempty"`
+	val     any        // the GraphQL value this literal denotes (strings: Go string of the decoded bytes)
 	class   map[string]bool
 }
 
